@@ -1,6 +1,7 @@
 (* C13 — applying an adjustment changes exactly what it names, deterministically. *)
-From Coq Require Import String List Bool Sorted Permutation.
-From NRI Require Import Model.Types Model.Generate Proofs.GenerateProofs.
+From Coq Require Import String List Bool ZArith Sorted Permutation.
+From NRI Require Import Base.Strs Base.Assoc Model.Types Model.Generate Spec.Apply Spec.GenSpec
+  Proofs.GenerateProofs Proofs.GenRefine Proofs.GenRefine2 Run.RunAdapt.
 Import ListNotations.
 
 (* after ANY mount adjustment of ANY mount list, no mount is followed by a mount of one of its parent
@@ -16,3 +17,128 @@ Theorem C13_mounts_sorted_permutation :
     exists unsorted, Permutation (gen_mounts ms cur) unsorted /\ StronglySorted mle (gen_mounts ms cur).
 Proof. exact gen_mounts_sorted_permutation. Qed.
 Print Assumptions C13_mounts_sorted_permutation.
+
+(* ---------- a concrete spec and an adjustment mixing sets, removals and remove-then-set in every family ---------- *)
+Open Scope string_scope.
+Open Scope Z_scope.
+Definition ex_m d s := {| m_dest := d; m_type := "bind"; m_source := s; m_opts := ["ro"] |}.
+Definition ex_d p t mj := {| d_path := p; d_type := t; d_major := mj; d_minor := 1; d_mode := None; d_uid := Some 0; d_gid := None |}.
+Definition ex_c : container :=
+  {| c_id := "c"; c_ann := [("k1", "v1"); ("k2", "v2")];
+     c_mounts := [ex_m "/a" "x"; ex_m "/a/b" "y"; ex_m "/c" "z"];
+     c_env := ["A=1"; "B=2"; "C=3"]; c_args := ["sh"]; c_hooks := hooks_empty; c_rlimits := [];
+     c_devices := [ex_d "/dev/a" "c" 1; ex_d "/dev/b" "b" 2];
+     c_res := {| r_scal := [(MemLimit, VZ 100); (BlockioClass, VS "old"); (CpuShares, VZ 5)];
+                 r_hp := [("2M", 1)]; r_uni := [("u", "1")] |};
+     c_cgroups := "/cg"; c_oom := Some 1 |}.
+Definition ex_s : spec := {| sp_c := ex_c; sp_cdi := ["x"]; sp_rules := [] |}.
+Definition ex_a : adjustment :=
+  {| a_ann := [("k1", "new"); ("-k1", ""); ("-k2", ""); ("k3", "v3")];
+     a_mounts := [ex_m "/a" "new"; ex_m "-/a" ""; ex_m "-/c" ""; ex_m "/a/b/c" "n"];
+     a_env := [("A", "9"); ("-A", ""); ("-B", ""); ("D", "4")]; a_args := [""; "ls"]; a_hooks := hooks_empty;
+     a_rlimits := [{| rl_type := "NOFILE"; rl_hard := 1; rl_soft := 1 |}]; a_cdi := ["v/c=d"];
+     a_devices := [ex_d "/dev/a" "b" 7; ex_d "-/dev/a" "" 0; ex_d "-/dev/b" "" 0; ex_d "/dev/n" "c" 3];
+     a_res := {| r_scal := [(MemLimit, VZ 200); (BlockioClass, VS ""); (CpuShares, VZ 9); (Pids, VZ 3); (MemSwap, VZ 1)];
+                 r_hp := [("2M", 5); ("1G", 2); ("2M", 6)]; r_uni := [("u", "2"); ("w", "3")] |};
+     a_cgroups := "/new"; a_oom := Some 7 |}.
+(* the same adjustment with every map and list iterated backwards: each set now precedes "its" removal *)
+Definition ex_a' : adjustment :=
+  {| a_ann := rev (a_ann ex_a); a_mounts := rev (a_mounts ex_a); a_env := rev (a_env ex_a); a_args := a_args ex_a;
+     a_hooks := a_hooks ex_a; a_rlimits := a_rlimits ex_a; a_cdi := a_cdi ex_a; a_devices := rev (a_devices ex_a);
+     a_res := {| r_scal := r_scal (a_res ex_a); r_hp := r_hp (a_res ex_a); r_uni := rev (r_uni (a_res ex_a)) |};
+     a_cgroups := a_cgroups ex_a; a_oom := a_oom ex_a |}.
+Close Scope Z_scope.
+Close Scope string_scope.
+
+(* (a) For every spec and every adjustment that is well formed (wf_gen, Spec/GenSpec.v: no key set twice in
+   the mounts / environment / device lists, settable variable names, the scalars a record; the spec's
+   environment entries "key=value" with distinct non-empty keys, distinct mount destinations, device paths
+   and hugepage sizes) the generator's result is observably the reference semantics apply_adj of the
+   adjustment: what is marked is removed, what is given is set, a set wins over a removal of the same key,
+   everything else is untouched, every requested CPU / memory-limit / hugepage / unified / pids /
+   cgroups-path / OOM / args / hooks / rlimits value is present; the CDI names are handed on; every device
+   that is set has its allow rule; mounts come after the mounts of their parent directories (destinations
+   absolute, the root directory spelled "/": dest_ok). *)
+Theorem C13_refines_apply :
+  forall s a, wf_gen s a = true ->
+    obs_eqb (sp_c (gen_adjust a s)) (apply_adj (cleared_classes a (sp_c s)) (gen_view a)) = true /\
+    sp_cdi (gen_adjust a s) = sp_cdi s ++ a_cdi a /\
+    dev_rules_ok (a_devices a) (sp_rules (gen_adjust a s)) = true /\
+    (a_mounts a <> [] -> Forall dest_ok (c_mounts (sp_c s)) -> Forall dest_ok (r_adds m_dest (a_mounts a)) ->
+     parents_first (c_mounts (sp_c (gen_adjust a s))) = true).
+Proof. exact gen_refines. Qed.
+Print Assumptions C13_refines_apply.
+
+Example C13_refines_apply_example :
+  wf_gen ex_s ex_a = true /\
+  c_env (sp_c (gen_adjust ex_a ex_s)) = ["A=9"; "C=3"; "D=4"]%string /\
+  c_ann (sp_c (gen_adjust ex_a ex_s)) = [("k1", "new"); ("k3", "v3")]%string.
+Proof. vm_compute. repeat split. Qed.
+
+(* the run-time predicate holds_C13 (Run/RunAdapt.v), which ./check evaluates on the REAL generator's
+   result for every generated case, is true of the MODEL's result for ALL well-formed inputs *)
+Theorem C13_model_holds :
+  forall s a, wf_gen s a = true -> Forall dest_ok (c_mounts (sp_c s)) -> Forall dest_ok (r_adds m_dest (a_mounts a)) ->
+    holds_C13 {| gc_spec := s; gc_adjust := a; gc_out := gen_adjust a s; gc_deterministic := true |} = true.
+Proof. exact gen_holds_C13. Qed.
+Print Assumptions C13_model_holds.
+
+Example C13_model_holds_example :
+  wf_gen ex_s ex_a = true /\ Forall dest_ok (c_mounts (sp_c ex_s)) /\ Forall dest_ok (r_adds m_dest (a_mounts ex_a)).
+Proof.
+  split; [vm_compute; reflexivity|].
+  split; vm_compute r_adds; repeat constructor; intros H; vm_compute in H; discriminate.
+Qed.
+
+(* (b) Every internal iteration order: permuting the annotation and the unified map (Go map iteration)
+   and the mounts / environment / device lists (sets and removals alike, so also a set and a removal of
+   the same key in either order) changes nothing observable, and the mount LIST is the same list.
+   wf_maps: the two maps have distinct keys (they are Go maps). *)
+Theorem C13_order_independent :
+  forall s a a', wf_gen s a = true -> wf_maps a = true -> adj_perm a a' ->
+    obs_eqb (sp_c (gen_adjust a s)) (sp_c (gen_adjust a' s)) = true /\
+    c_mounts (sp_c (gen_adjust a s)) = c_mounts (sp_c (gen_adjust a' s)) /\
+    sp_cdi (gen_adjust a s) = sp_cdi (gen_adjust a' s).
+Proof. exact gen_order_independent. Qed.
+Print Assumptions C13_order_independent.
+
+Example C13_order_independent_example :
+  wf_gen ex_s ex_a = true /\ wf_maps ex_a = true /\ adj_perm ex_a ex_a' /\ a_env ex_a' <> a_env ex_a.
+Proof.
+  split; [vm_compute; reflexivity|]. split; [vm_compute; reflexivity|]. split.
+  - constructor; try reflexivity.
+    + exact (Permutation_rev (a_ann ex_a)).
+    + exact (Permutation_rev (a_mounts ex_a)).
+    + exact (Permutation_rev (a_env ex_a)).
+    + exact (Permutation_rev (a_devices ex_a)).
+    + exact (Permutation_rev (r_uni (a_res ex_a))).
+  - vm_compute. discriminate.
+Qed.
+
+(* (c) Frame: a key that no entry of the adjustment names (neither as a set nor as a removal) keeps its
+   value, family by family; the swap limit follows the memory limit, so it is framed only when the
+   adjustment names neither. *)
+Theorem C13_frame :
+  forall s a, wf_gen s a = true ->
+    let c := sp_c s in let c' := sp_c (gen_adjust a s) in
+    (forall k, ~ In k (named fst (a_ann a)) -> kfind fst k (c_ann c') = kfind fst k (c_ann c)) /\
+    (forall k, ~ In k (named m_dest (a_mounts a)) -> kfind m_dest k (c_mounts c') = kfind m_dest k (c_mounts c)) /\
+    (forall k, ~ In k (named fst (a_env a)) -> kfind ref_env_key k (c_env c') = kfind ref_env_key k (c_env c)) /\
+    (forall k, ~ In k (named d_path (a_devices a)) -> kfind d_path k (c_devices c') = kfind d_path k (c_devices c)) /\
+    (forall f, ~ In f (map fst (r_scal (a_res a))) -> (f = MemSwap -> ~ In MemLimit (map fst (r_scal (a_res a)))) ->
+               flookup f (r_scal (c_res c')) = flookup f (r_scal (c_res c))) /\
+    (forall k, ~ In k (map fst (r_hp (a_res a))) -> kfind fst k (rev (r_hp (c_res c'))) = kfind fst k (rev (r_hp (c_res c)))) /\
+    (forall k, ~ In k (map fst (r_uni (a_res a))) -> kfind fst k (r_uni (c_res c')) = kfind fst k (r_uni (c_res c))) /\
+    (a_args a = [] -> c_args c' = c_args c) /\
+    (a_cgroups a = ""%string -> c_cgroups c' = c_cgroups c) /\
+    (a_oom a = None -> c_oom c' = c_oom c).
+Proof. exact gen_frame_b. Qed.
+Print Assumptions C13_frame.
+
+Example C13_frame_example :
+  wf_gen ex_s ex_a = true /\ ~ In "C"%string (named fst (a_env ex_a)) /\
+  kfind ref_env_key "C"%string (c_env (sp_c (gen_adjust ex_a ex_s))) = Some "C=3"%string.
+Proof.
+  split; [vm_compute; reflexivity|]. split; [|vm_compute; reflexivity].
+  vm_compute. intros H. repeat (destruct H as [H|H]; [discriminate|]). exact H.
+Qed.
